@@ -431,7 +431,8 @@ impl State {
                 }
             }
             Ev::Deliver { sock, data } => {
-                if self.socks[sock].closed || self.socks[sock].rx_fin || self.socks[sock].rx_rst {
+                // data arriving after a local shutdown(Both) / close is discarded (Linux: answered with RST)
+                if self.socks[sock].closed || self.socks[sock].rx_fin || self.socks[sock].rx_rst || self.socks[sock].local_shutdown {
                     return;
                 }
                 let n = data.len();
